@@ -4,7 +4,7 @@ from fractions import Fraction as F
 
 from sim.chart import Cfg, swarm, gen_spec
 from sim.engine import Result, Abandon, fp, REPO
-from sim.probes import SimClock
+from sim.probes import SimClock, SkewClock
 from sim.semrun import Sim, standard_ops, replay_script, legal_or_abandon
 from sim.checks import common
 
@@ -62,8 +62,11 @@ def run_generated(ch, tier):
     res = Result()
     cfg = swarm(ch.s('cfg'), Cfg(contracts=True, bump=True, sends=True, notify=True, delays=True), tier)
     cfg.time_guards = ch.s('cfg').flag(1, 2)     # guards log after()/idle(): stamps must not depend on contract checking
+    cfg.time_obs = ch.s('cfg').flag(1, 2)        # invariants use after()/idle(), code logs `time`
+    skew = ch.s('cfg').flag(1, 2)                # a clock that moves at every read: checking must not read it more often
+    mkclock = (lambda: SkewClock()) if skew else (lambda: SimClock())
     sp = gen_spec(ch.s('chart'), cfg)
-    a = Sim(sp, ignore_contract=False)
+    a = Sim(sp, ignore_contract=False, clock=mkclock())
     ra = Rec(a.it)
     recs = []
     for r in standard_ops(a, ch, tier, delays=True, hi=25 if tier == 'quick' else 60):
@@ -75,7 +78,7 @@ def run_generated(ch, tier):
         recs.append((sig(r.ms), sorted(r.post), r.ctx_after, r.exc_name(), len(ra.events)))
     script = a.script
     for variant in ('conditions-true', 'conditions-false'):
-        b = Sim(sp, ignore_contract=True)
+        b = Sim(sp, ignore_contract=True, clock=mkclock())
         rb = Rec(b.it)
         if variant == 'conditions-false':
             b.P.cond_truth = {j: False for j in range(sp.nconds)}
@@ -101,9 +104,10 @@ def run_generated(ch, tier):
         if b.P.cond_n != 0 or any(e[0] in ('cond', 'tcond') for e in b.P.log):
             return res.fail('evaluated-while-ignoring', '%d contract conditions were evaluated with ignore_contract=True' % b.P.cond_n,
                             chart=sp.describe(), variant=variant)
-        if [e for e in b.P.log if e[0] != 'cond'] != [e for e in a.P.log if e[0] != 'cond']:
+        if [e for e in b.P.log if e[0] not in ('cond', 'tcond')] != [e for e in a.P.log if e[0] not in ('cond', 'tcond')]:
             return res.fail('twins-differ', 'executed code differs between the twins', chart=sp.describe(), variant=variant)
     res.stats['generated_twin_runs'] += 1
+    res.stats['twin_runs_with_skewing_clock'] += int(skew)
     res.stats['conditions_evaluated_in_checking_twin'] += a.P.cond_n
     if a.P.cond_n and len([x for x in recs if x[0] is not None]) >= 2:
         res.nontrivial.add(fp((sp.fingerprint(), [repr(o) for o in script])))
